@@ -165,3 +165,16 @@ func replayLines(path string) []string {
 	}
 	return res
 }
+
+// ms: an observation window of n milliseconds, stretched by VERIF_SLOW (vcheck re-runs a
+// failing case with stretched windows before it believes a timing-dependent observation).
+func ms(n int) time.Duration {
+	f := 1
+	if v := os.Getenv("VERIF_SLOW"); v != "" {
+		fmt.Sscan(v, &f)
+		if f < 1 {
+			f = 1
+		}
+	}
+	return time.Duration(n*f) * time.Millisecond
+}
